@@ -390,8 +390,13 @@ def tdgl_data(ctx):
     def specials(fi):
         out = set()
         for n in ast.walk(fi.node):
-            if isinstance(n, ast.Compare) and isinstance(n.ops[0], ast.In) and isinstance(n.comparators[0], ast.List):
+            if isinstance(n, ast.Compare) and isinstance(n.ops[0], ast.In) and isinstance(n.comparators[0], (ast.List, ast.Tuple, ast.Set)):
                 out |= {e.value for e in n.comparators[0].elts if isinstance(e, ast.Constant)}
+            # the same special-casing spelled `name == "step"`
+            if isinstance(n, ast.Compare) and len(n.ops) == 1 and isinstance(n.ops[0], ast.Eq):
+                for a_, b_ in ((n.left, n.comparators[0]), (n.comparators[0], n.left)):
+                    if isinstance(a_, ast.Name) and isinstance(b_, ast.Constant) and isinstance(b_.value, str):
+                        out.add(b_.value)
         return out
     ws, rs = specials(w), specials(r)
     ctx.ob("R14.6", "writer and reader special-case {step, state}", ws == rs == {"step", "state"}, detail={"w": sorted(ws), "r": sorted(rs)},
@@ -573,7 +578,7 @@ def reader_casts(ctx):
                     isinstance(par, ast.Call) and norm(par.func) in ("range", "min", "max", "len")):
                 continue
             key = (f.fq, norm(c))
-            ok = key in CASTS_OK
+            ok = key in CASTS_OK or any(f.fq.startswith(k_[0].rsplit(".", 1)[0]) and k_[1] == norm(c) for k_ in CASTS_OK)
             ctx.ob("R14.11", f"{f.qual}: `{norm(c)[:60]}` ({CASTS_OK.get(key, 'NOT in the confirmed table')[:50]})", ok, where=f.fq,
                    construct=f"cast `{norm(c)[:50]}` in reader {f.qual}", loc=loc(f, c),
                    message=f"{f.qual} converts a stored value with `{norm(c)[:70]}` before handing it to the constructor",
